@@ -163,7 +163,11 @@ func verifyVariant(p *Program, con *Contract, choice []enumChoice, mode string, 
 
 	st := &State{reach: c.True(), vars: map[types.Object]Val{}, heap: map[string]*Term{}}
 	alloc0 := x.heapGet(st, "alloc", SArr(SInt, SBool))
-	allocd := func(r *Term) { x.assumeGlobal(st, c.Or(c.Eq(r, c.Int(0)), c.Select(alloc0, r))) }
+	brk0 := x.heapGet(st, "ghost.brk", SInt)
+	x.assumeGlobal(st, c.Ge(brk0, c.Int(1)))
+	allocd := func(r *Term) {
+		x.assumeGlobal(st, c.And(c.Or(c.Eq(r, c.Int(0)), c.Select(alloc0, embRoot(r))), c.Lt(r, brk0)))
+	}
 	bindParam := func(p *types.Var, isRecv bool) {
 		t := p.Type()
 		if isObjType(t) {
@@ -422,7 +426,7 @@ func (x *Exec) frameObligations(entry, final *State, alloc0 *Term) {
 		if !ok {
 			et = x.heapGet(entry, name, ft.sort)
 		}
-		if ft == et || name == "alloc" || strings.HasPrefix(name, "ghost.lockdepth") {
+		if ft == et || name == "alloc" || name == "ghost.brk" || strings.HasPrefix(name, "ghost.lockdepth") {
 			continue
 		}
 		locs := allowed[name]
